@@ -249,7 +249,7 @@ class Var:
             if 'null' in args and not val and val != 0:
                 try:
                     if hasattr(val, fmt):
-                        val = _get(val, fmt)()
+                        val = _keep_taint(val, _get(val, fmt)())
                     elif fmt in special_formats:
                         if fmt == 'html-quote' and \
                            isinstance(val, TaintedString):
@@ -278,7 +278,7 @@ class Var:
                 # We duplicate the code here to avoid exception handler
                 # which tends to screw up stack or leak
                 if hasattr(val, fmt):
-                    val = _get(val, fmt)()
+                    val = _keep_taint(val, _get(val, fmt)())
                 elif fmt in special_formats:
                     if fmt == 'html-quote' and \
                        isinstance(val, TaintedString):
@@ -307,7 +307,7 @@ class Var:
             if isinstance(val, TaintedString):
                 wastainted = 1
             val = ('%' + self.fmt) % (val,)
-            if wastainted and '<' in val:
+            if wastainted:
                 val = TaintedString(val)
 
         # next, look for upper, lower, etc
@@ -370,28 +370,36 @@ class Call:
         self.encoding = encoding
 
 
+def _keep_taint(original, result):
+    # Untrusted data stays marked as tainted on its way through the value
+    # pipeline, so that it is still quoted at the end of ``Var.render``.
+    if isinstance(original, TaintedString) and type(result) is str:
+        return TaintedString(result)
+    return result
+
+
 def url_quote(v, name='(Unknown name)', md={}):
     if isinstance(v, bytes):
         return urllib.parse.quote(v.decode('utf-8')).encode('utf-8')
-    return urllib.parse.quote(str(v))
+    return _keep_taint(v, urllib.parse.quote(str(v)))
 
 
 def url_quote_plus(v, name='(Unknown name)', md={}):
     if isinstance(v, bytes):
         return urllib.parse.quote_plus(v.decode('utf-8')).encode('utf-8')
-    return urllib.parse.quote_plus(str(v))
+    return _keep_taint(v, urllib.parse.quote_plus(str(v)))
 
 
 def url_unquote(v, name='(Unknown name)', md={}):
     if isinstance(v, bytes):
         return urllib.parse.unquote(v.decode('utf-8')).encode('utf-8')
-    return urllib.parse.unquote(str(v))
+    return _keep_taint(v, urllib.parse.unquote(str(v)))
 
 
 def url_unquote_plus(v, name='(Unknown name)', md={}):
     if isinstance(v, bytes):
         return urllib.parse.unquote_plus(v.decode('utf-8')).encode('utf-8')
-    return urllib.parse.unquote_plus(str(v))
+    return _keep_taint(v, urllib.parse.unquote_plus(str(v)))
 
 
 def newline_to_br(v, name='(Unknown name)', md={}):
@@ -422,10 +430,11 @@ def dollars_and_cents(v, name='(Unknown name)', md={}):
 def thousands_commas(v, name='(Unknown name)', md={},
                      thou=re.compile(
                          r"([0-9])([0-9][0-9][0-9]([,.]|$))").search):
+    original = v
     v = str(v)
     vl = v.split('.')
     if not vl:
-        return v
+        return _keep_taint(original, v)
     v = vl[0]
     del vl[0]
     if vl:
@@ -437,7 +446,7 @@ def thousands_commas(v, name='(Unknown name)', md={},
         l_ = mo.start(0)
         v = v[:l_ + 1] + ',' + v[l_ + 1:]
         mo = thou(v)
-    return v + s
+    return _keep_taint(original, v + s)
 
 
 def whole_dollars_with_commas(v, name='(Unknown name)', md={}):
@@ -522,6 +531,7 @@ def sql_quote(v, name='(Unknown name)', md={}):
     This is needed to securely insert values into sql
     string literals in templates that generate sql.
     """
+    original = v
     if isinstance(v, bytes):
         v = v.decode('UTF-8')
 
@@ -533,7 +543,7 @@ def sql_quote(v, name='(Unknown name)', md={}):
     for char in ("'",):
         v = v.replace(char, char * 2)
 
-    return v
+    return _keep_taint(original, v)
 
 
 special_formats = {
@@ -571,7 +581,7 @@ def capitalize(val):
 
 def spacify(val):
     if val.find('_') >= 0:
-        val = val.replace('_', ' ')
+        val = _keep_taint(val, val.replace('_', ' '))
     return val
 
 
